@@ -166,8 +166,23 @@ def equivalent(p: Val, q: Val, fixed_bools: Optional[Dict[str, bool]] = None):
     return True, f"{n} assignments over {len(uq.forms)} orderings and {len(uq.bools)} flags"
 
 
-def decision(events_or_value, u: Universe, asg: Dict):
-    raise NotImplementedError
+def tri(p: Val, leaf: Callable[[Val], Optional[bool]]) -> Optional[bool]:
+    """three-valued evaluation of a predicate whose atomic tests `leaf` settles (True / False) or leaves open (None)"""
+    if isinstance(p, Const):
+        return bool(p.v)
+    if isinstance(p, P) and p.op == 'not':
+        t = tri(p.args[0], leaf)
+        return None if t is None else not t
+    if isinstance(p, P) and p.op in ('and', 'or'):
+        ts = [tri(a, leaf) for a in p.args]
+        if p.op == 'and':
+            if any(t is False for t in ts):
+                return False
+            return True if all(t is True for t in ts) else None
+        if any(t is True for t in ts):
+            return True
+        return False if all(t is False for t in ts) else None
+    return leaf(p)
 
 
 # --------------------------------------------------------------------------- substitution of opaque terms
